@@ -164,7 +164,7 @@ Section Engine.
           destruct (passive_parts p1 N1) as (Q1 & Q2 & Q3 & Q4).
           destruct (passive_parts p2 N2) as (R1 & R2 & R3 & R4).
           assert (Ok1 : Forall okr rs1) by (eapply Permutation_Forall; [symmetry; exact P1 | exact A2]).
-          rewrite (try_start_exact s0 rest0 NoAll x (e_clock en)).
+          rewrite (try_start_exact s0 rest0 NoAll lim x (e_clock en)).
           pose proof (news_absl (e_clock en)) as Nw. fold key in Nw.
           rewrite !flat_map_app. cbn [flat_map]. rewrite !absp_pair, !ab_nil. cbn [app].
           rewrite !lives_app, !dones_app, Q2, R2. cbn [app]. rewrite app_nil_r.
@@ -212,7 +212,7 @@ Section Engine.
           assert (Nk' : ~ In key (map fst (map cnp (e_parts en)))) by (rewrite cnp_keys; exact Nk).
           rewrite (part_get_none _ _ Nk'). cbn [length Nat.add proc_runs nth_error].
           destruct (passive_parts (e_parts en) Nk) as (Q1 & Q2 & Q3 & Q4).
-          rewrite (try_start_exact s0 rest0 NoAll x (e_clock en)).
+          rewrite (try_start_exact s0 rest0 NoAll lim x (e_clock en)).
           pose proof (news_absl (e_clock en)) as Nw. fold key in Nw.
           rewrite !ab_nil. cbn [app]. rewrite Q2.
           destruct (step_ok s0 x []) eqn:So.
@@ -251,7 +251,7 @@ Section Engine.
         rewrite H.
         pose proof (proc_runs_length _ _ _ _ _ _ _ _ _ H) as Lrs1. rewrite check_negs_length in Lrs1.
         assert (Ok1 : Forall okr rs1) by (eapply Permutation_Forall; [symmetry; exact P1 | exact A2]).
-        rewrite (try_start_exact s0 rest0 NoAll x (e_clock en)).
+        rewrite (try_start_exact s0 rest0 NoAll lim x (e_clock en)).
         pose proof (news_absl (e_clock en)) as Nw. rewrite Pt in Nw. cbn [key_of] in Nw.
         assert (Pms : Permutation (map m_stack ms) (dones (step_all negs None (ab KMissing (e_runs en)) x))).
         { rewrite <- A4. apply Permutation_map. exact P2. }
